@@ -5,6 +5,7 @@ import argparse, concurrent.futures as cf, glob, json, os, subprocess, sys
 VERIF = os.path.dirname(os.path.dirname(os.path.abspath(__file__)))
 ap = argparse.ArgumentParser(); ap.add_argument("ids", nargs="*"); ap.add_argument("--jobs", type=int, default=3)
 ap.add_argument("--tests", action="store_true")
+ap.add_argument("--seed", default="0", help="VERIF_SEED for the check; results for seeds other than 0 go to seeded/results_seed<N>.jsonl")
 ap.add_argument("--new", action="store_true", help="only seeds without an entry in seeded/results.jsonl")
 ap.add_argument("--missed", action="store_true", help="only seeds whose latest entry is not caught_with_input")
 a = ap.parse_args()
@@ -17,7 +18,7 @@ for d in sorted(glob.glob(os.path.join(VERIF, "seeded", "pending", "C*-*")) + gl
     if pid in ids:
         dirs.append(d)
 latest = {}
-rp = os.path.join(VERIF, "seeded", "results.jsonl")
+rp = os.path.join(VERIF, "seeded", "results.jsonl" if a.seed == "0" else "results_seed%s.jsonl" % a.seed)
 if os.path.exists(rp):
     for l in open(rp):
         try:
@@ -29,7 +30,7 @@ if a.new:
 if a.missed:
     dirs = [d for d in dirs if os.path.basename(d) in latest and not latest[os.path.basename(d)].get("caught_with_input")]
 def run(d):
-    cmd = ["/venv/bin/python", os.path.join(VERIF, "tools", "seedcheck.py"), d] + (["--tests"] if a.tests else [])
+    cmd = ["/venv/bin/python", os.path.join(VERIF, "tools", "seedcheck.py"), d, "--seed", a.seed] + (["--tests"] if a.tests else [])
     p = subprocess.run(cmd, stdout=subprocess.PIPE, stderr=subprocess.STDOUT, text=True)
     last = p.stdout.strip().splitlines()[-1] if p.stdout.strip() else "{}"
     try:
@@ -38,7 +39,7 @@ def run(d):
         return {"dir": d, "error": p.stdout[-400:]}
 with cf.ThreadPoolExecutor(a.jobs) as ex:
     for o in ex.map(run, dirs):
-        with open(os.path.join(VERIF, "seeded", "results.jsonl"), "a") as f:
+        with open(rp, "a") as f:
             f.write(json.dumps(o) + "\n")
         print(os.path.basename(o.get("dir", "?")), "clean", o.get("demo_clean_rc"), "apply", o.get("apply_rc"), "patched", o.get("demo_patched_rc"),
               "caught", o.get("caught"), "input", o.get("caught_with_input"), o.get("error", ""))
